@@ -72,7 +72,8 @@ type c07Run struct {
 	Res         ExecResult
 	Evs         []L2Ev
 	HookGas     uint64
-	ZeroGas     bool // hook_max_gas = 0
+	ZeroGas     bool     // hook_max_gas = 0
+	Execs       []string // executor list to install on the branch (nil = the scenario's)
 	Gas         uint64
 	HookCharges []uint64
 	Signer      uint64 // hook signer (0 = none)
@@ -117,6 +118,13 @@ func (fx *c07Fx) exec(run *c07Run) {
 	branch, _ := fx.base.CacheContext()
 	meter := &recMeter{GasMeter: storetypes.NewGasMeter(1 << 40)}
 	e.Ctx = branch.WithGasMeter(meter)
+	if run.Execs != nil {
+		ps, _ := e.K.GetParams(e.Ctx)
+		ps.BridgeExecutors = append([]string{}, run.Execs...)
+		if err := e.K.SetParams(e.Ctx, ps); err != nil {
+			panic(err)
+		}
+	}
 	if run.HookGas != 0 || run.ZeroGas {
 		ps, _ := e.K.GetParams(e.Ctx)
 		ps.HookMaxGas = run.HookGas
@@ -191,6 +199,8 @@ func (fx *c07Fx) judge(run *c07Run) {
 			fx.viol(run, "C07:err-changed-state", "a failed deposit message changed state")
 		}
 		switch {
+		case faultName == "" && run.Execs != nil:
+			fx.viol(run, "C07:authorised-finalization-refused", fmt.Sprintf("a deposit L1 can emit, sent by a LISTED bridge executor (list %v, sender %s), was refused", run.Execs, run.Op.Sender))
 		case faultName == "":
 			fx.viol(run, "C07:deposit-blocked", "a deposit L1 can emit made the handler fail (the bridge is stuck behind it)")
 		case c07Guarded(faultName):
@@ -354,6 +364,7 @@ func genC07(seed uint64, tier string, outdir string) *Report {
 		"unroutable", "sendunroutable", // a decodable message with no handler on the router (monitor-only)
 		"garbage@gas0", "badsig@gas0", "fail1@gas0", "ok@gas0", "wd@gas0"} // hook_max_gas = 0: hooks are off, payloads must be refunded
 	gasBound := map[string][2]uint64{}
+	shapeNo := 0
 
 	for b := 0; b < nBases; b++ {
 		sc := NewL2Scenario(seed*131+uint64(b), 0, true)
@@ -362,7 +373,14 @@ func genC07(seed uint64, tier string, outdir string) *Report {
 		// base: user 4 (the hook signer) holds 100 of bridged denom 0
 		setup := sc.Deposit(e.User(1).Str, 1, e.User(4).Str, 0, big.NewInt(100), Hook{Kind: "none"})
 		if res := e.L2Exec(setup); !res.OK {
-			panic("setup deposit failed: " + res.Err)
+			// not a harness error: a listed executor's next-in-order finalization was refused
+			l2SetupRefused(rep, "C07", e, b, setup, res)
+			// try the other listed executor so that the rest of the enumeration still runs
+			setup.Sender = e.User(2).Str
+			if res := e.L2Exec(setup); !res.OK {
+				l2SetupRefused(rep, "C07", e, b, setup, res)
+				continue
+			}
 		}
 		// odd bases: the deposited denom is already registered (no SetDenomMetaData call)
 		depDenom := 1
@@ -446,7 +464,8 @@ func genC07(seed uint64, tier string, outdir string) *Report {
 					case "blocked":
 						to = e.ModAddr[ModFeeCol].String()
 					}
-					op := sc.Deposit(e.User(1).Str, n1, to, depDenom, am.v, mkHook(hk))
+					shapeNo++
+					op := sc.Deposit(e.User(uint64(1+shapeNo%2)).Str, n1, to, depDenom, am.v, mkHook(hk)) // both listed executors
 					var hookGas uint64
 					if hk == "oog" {
 						hookGas = c07SmallGas
@@ -553,6 +572,38 @@ func genC07(seed uint64, tier string, outdir string) *Report {
 			c := &L2Case{ID: caseID, Env: e, Track: sc.Case.Track, Params: sc.Case.Params, NextL1: sc.Case.NextL1, NextL2: sc.Case.NextL2,
 				Bals: sc.Case.Bals, Sups: sc.Case.Sups, Pairs: sc.Case.Pairs, Ops: []L2Op{op1, op2}, Obs: []Ov{o1, o2}}
 			texts = append(texts, c.Coq())
+		}
+		// every listed executor may finalize: executor lists of 1..3 entries, sender = each position
+		// (first, middle, last), credited / refunded / hook-carrying deposits (no-fault runs; model-compared)
+		for _, ids := range [][]uint64{{1}, {2}, {1, 2}, {2, 1}, {3, 1, 2}, {2, 3, 1}} {
+			var execs []string
+			for _, id := range ids {
+				execs = append(execs, e.User(id).Str)
+			}
+			for pos, id := range ids {
+				for _, hk := range []string{"none", "fail1", "ok"} {
+					for _, to := range []string{e.User(signer).Str, "notanaddress"} {
+						rcName := "valid"
+						if to == "notanaddress" {
+							rcName = "malformed"
+						}
+						op := sc.Deposit(e.User(id).Str, n1, to, depDenom, big.NewInt(1), mkHook(hk))
+						run := &c07Run{Shape: c07Shape{rcName, "1", hk}, Base: b, Op: op, Execs: execs,
+							Signer: signer, Target: target, HookAmt: 5, HookWd: 3, HookDen: hookDen}
+						fx.exec(run)
+						fx.judge(run)
+						caseID++
+						rep.Ops++
+						rep.CountCase(fmt.Sprintf("%d/execs%v/pos%d/%s/%s", b, ids, pos, hk, rcName), true)
+						rep.Hist(fmt.Sprintf("executor-list:%d-entries:position-%d", len(ids), pos))
+						cp := *sc.Case.Params
+						cp.Execs = execs
+						c := &L2Case{ID: caseID, Env: e, Track: sc.Case.Track, Params: &cp, NextL1: sc.Case.NextL1, NextL2: sc.Case.NextL2,
+							Bals: sc.Case.Bals, Sups: sc.Case.Sups, Pairs: sc.Case.Pairs, Ops: []L2Op{op}, Obs: []Ov{run.PostObs}}
+						texts = append(texts, c.Coq())
+					}
+				}
+			}
 		}
 		l2QueryMonitor(rep, sc.Case, "C07")
 		// random payloads (thorough): random send lists, signers, sequences
